@@ -348,10 +348,29 @@ def do_JobSequencing(ctx, rng, w, bad, call):
         return
     opt = min(max(sum(l for l, a in zip(lengths, asg) if a == wk) for wk in range(m)) for asg in itertools.product(range(m), repeat=nj))
     nx = nj * m
+    # how the class numbers its variables is its own business: which variable puts which job on which worker is learnt from the
+    # decoding of the unit vectors (a variable that places nothing is slack); the decoding of every other assignment, validity,
+    # ground states and optimal costs are then judged against the problem's definition through that map
+    where = {}
+    for i_ in range(n):
+        e_ = [0] * n
+        e_[i_] = 1
+        dec_ = call("convert_solution", p.convert_solution, e_)
+        hits_ = [(j_, wk_) for wk_, cl_ in enumerate(dec_) for j_ in cl_]
+        if len(hits_) == 1:
+            where[i_] = hits_[0]
+        elif hits_:
+            bad("convert_solution-wrong", "the single variable %d decodes to several placements %r" % (i_, dec_))
+            return
+    if sorted(map(repr, where.values())) != sorted(repr((j_, wk_)) for j_ in jobs for wk_ in range(m)):
+        bad("convert_solution-wrong", "the unit vectors decode to the placements %r; expected one variable per (job, worker)" % (sorted(map(repr, where.values())),))
+        return
+    xvars = sorted(where)
+    slackvars = [i_ for i_ in range(n) if i_ not in where]
 
     def feas(xb):
-        # every job on exactly one worker (x variables are the first nj*m labels, job-major)
-        return all(sum(xb[ji * m + wk] for wk in range(m)) == 1 for ji in range(nj))
+        # every job on exactly one worker
+        return all(sum(xb[i_] for i_, (j_, _) in where.items() if j_ == job_) == 1 for job_ in jobs)
 
     def cost(dec):
         return max(sum(length_of(j) for j in cl) for cl in dec)
@@ -360,13 +379,16 @@ def do_JobSequencing(ctx, rng, w, bad, call):
     wl = [("default", (), {"B": B}, B), ("just-above-threshold", (thr + 0.5, B), {}, B), ("far-above-threshold", (thr * 2 + 1, B), {}, B)]
     check_forms(ctx, rng, w, p, n, wl, cost, feas, opt, bad, call)
     for i in range(1 << nx):
-        xb = bits(i, nx) + [0] * (n - nx)
+        xb = [0] * n
+        for b_, pos_ in zip(bits(i, nx), xvars):
+            xb[pos_] = b_
         if n > nx and rng.random() < 0.5:
-            xb = bits(i, nx) + [rng.choice((0, 1)) for _ in range(n - nx)]     # the slack part of a raw assignment is whatever the solver left there
+            for pos_ in slackvars:
+                xb[pos_] = rng.choice((0, 1))     # the slack part of a raw assignment is whatever the solver left there
             ctx.cat("JobSequencing:raw-assignment-with-random-slack")
         ctx.count("is_solution_valid-checks")
         dec = call("convert_solution", p.convert_solution, containers(rng, xb, n))
-        exp = tuple({jobs[ji] for ji in range(nj) if xb[ji * m + wk]} for wk in range(m))
+        exp = tuple({j_ for i_, (j_, wk_) in where.items() if wk_ == wk and xb[i_]} for wk in range(m))
         if dec != exp:
             bad("convert_solution-wrong", "convert_solution(%r) = %r expected %r" % (xb, dec, exp))
         if rng.random() < 0.5:
